@@ -94,6 +94,7 @@ def run(ck, fb):
     r01n(ck, fb)
     r01o(ck, fb)
     r01s(ck, fb)
+    ck.borrow('rules.c02', {'R02s': 'R01u'}, 'an acknowledged write whose log record is cut by a later preallocation step is missing after the restart')
     r01t(ck, fb)
     ck.borrow('rules.c19', {'R19h': 'R01q'}, 'a request served while the restore is still running is applied on top of a state that is about to be overwritten by it')
     ck.borrow('rules.c20', {'R20g': 'R01p'}, 'a snapshot whose header record is longer than one read chunk must still be readable at start-up, otherwise everything it covers is missing after the restart')
@@ -458,6 +459,7 @@ def r01e(ck, fb):
 # persisted-state codecs (snapshot records, log records, catalogue): function -> (target type regex, fields that may be filled without the input,
 # one reason each). Any OTHER field of the built value that is not derived from the function's input is reported: it would be dropped /
 # defaulted by every snapshot, log entry or restart.
+ELEMENT_FILTER_OK = set()
 LITERAL_ALT_OK = {
     ('From<ConfigValueDO>forConfigValue', 'last_modified'): 'derived from the newest history item; 0 when there is none',
 }
@@ -532,12 +534,29 @@ def _codec_row(ck, fb, b, adt_rx, allowed, key):
         ck.require(not lits, 'R01r', key + ':' + f, x.where(lits[0]) if lits else x.where(i),
                    'codec %s replaces the %s field `%s` by a literal on some path: a value the other side writes verbatim comes back different '
                    'after a snapshot / restart (e.g. a stored 0 read back as a default)' % (b.name, ty, f), 'carried on every path')
+    # R01v: every element of a repeated field is carried: a push / insert inside the loop over the input's elements is unconditional
+    for y in fb.tree(b.name):
+        for s1 in y.calls(r'Vec::<T, A>::push$|HashMap::<K, V, S, A>::insert$|BTreeMap::<K, V, A>::insert$|HashSet::<T, S, A>::insert$'):
+            atoms = cfg.guard_atoms(y, s1.bb)
+            if not any(a[0] == 'variant' and a[2] == 'Some' and 'Iterator>::next' in cfg.fmt_desc(a[3]) for a in atoms):
+                continue
+            extra = [cfg.fmt_atom(a) for a in atoms if not (a[0] in ('variant', 'notvariant', 'variantin') and
+                                                            re.search(r'Iterator>::next|Try>::branch', cfg.fmt_atom(a)))]
+            extra = [e for e in extra if (key, e) not in ELEMENT_FILTER_OK]
+            if not extra and util.loop_can_skip(y, s1.bb)[1] and (key, 'skip') not in ELEMENT_FILTER_OK:
+                extra = ['a condition inside the loop (an iteration can pass without carrying its element)']
+            ck.require(not extra, 'R01v', key + ':every-element', s1.where(),
+                       'codec %s carries an element of a repeated field only if %s: the elements for which that does not hold are dropped by every '
+                       'save / snapshot / restart (a node address saved before its node is a member is forgotten by the next reopen)' % (b.name, extra),
+                       'unconditional')
     ck.require(not lost, 'R01f', key, x.where(i),
                'codec %s fills %s of the persisted value without using its input: the field is dropped / reset by every snapshot, log entry or restart' % (b.name, lost),
                '%d fields carried' % (len(rv['fields']) - len([f for f in rv['fields'] if f in allowed])))
 
 
 def r01f(ck, fb):
+    ck.rule('R01v', 'repeated fields are carried element by element: in every codec of R01f a push / insert inside the loop over the input\'s '
+                    'elements is not guarded by anything but the iteration and error propagation')
     ck.rule('R01r', 'persisted numeric / bool fields are carried verbatim by every codec of R01f: the operand of such a field is never a value that a '
                     'branch replaces by a literal (a decoder default for a value the encoder writes as it is changes what is served after a restart)')
     ck.rule('R01f', 'persisted-value codecs carry every field: in each encoder/decoder on the snapshot / log / catalogue path every field of the value '
@@ -810,6 +829,8 @@ SNAPSHOT_FILTERS = {   # builder -> conditions an entry may have to meet to be w
         (r'BitAnd', 'only user-created namespaces are stored, weak ones are rebuilt from their references (R01l)'),
         (r'already_sync_from_config', 'the marker record is written once the old data was migrated (R01m)')],
     'rnacos::config::core::ConfigActor::build_snapshot': SNAPSHOT_FILTERS_CONFIG,
+    'rnacos::cache::core::DirectCacheManager::build_snapshot': [
+        (r'expire', 'an entry whose expire second has passed is dead for every reader (get_valid_value refuses it)')],
     'rnacos::naming::core::NamingActor::build_snapshot': [
         (r'^!?ephemeral$|\.ephemeral$', 'only persistent instances belong to the raft state')],
 }
@@ -844,6 +865,8 @@ def r01s(ck, fb, R='R01s'):
                 if any(re.search(rx, txt) for rx, _why in allowed):
                     continue
                 extra.append(txt)
+            if not extra and not allowed and util.loop_can_skip(b, i)[1]:
+                extra = ['a condition inside the loop (an iteration can pass without writing its entry)']
             ck.require(not extra, R, '%s:every-entry-written' % b.name.split('::')[-2], b.where(i),
                        '%s writes an entry to the snapshot only if %s: entries for which that does not hold are not in the snapshot, so a node that '
                        'restarts from it or is caught up with it serves less (keys, history, type, description) than before' % (b.name, extra),
